@@ -174,4 +174,51 @@ Theorem traversal_count_destroy l : uids l ->
 Proof.
   intros Hu. cbn. split; [exact Hu|split; [reflexivity|]]. destruct l; split; intros H; try reflexivity; discriminate.
 Qed.
+(* C06, sequential half: with insertions through add_unique / add_replace / replace only, no two stored nodes ever share a (hash, key) *)
+Definition nodupkey (l : table_t) : Prop := forall a b, In a l -> In b l -> srh a = srh b -> skey a = skey b -> a = b.
+Lemma in_replace_id l i x z : uids l -> In z (replace_id l i x) -> z = x \/ (In z l /\ sid z <> i).
+Proof.
+  unfold uids. induction l as [|y l IH]; cbn [replace_id]; [intros _ []|]. intros Hu. cbn [map] in Hu. inversion Hu as [|? ? Hni Hnd]; subst.
+  destruct (N.eqb_spec (sid y) i) as [E|E].
+  - intros [<-|H]; [left; reflexivity|]. right. split; [right; exact H|]. intros Ez. apply Hni. rewrite E, <- Ez. apply in_map. exact H.
+  - intros [<-|H]; [right; split; [left; reflexivity|exact E]|]. destruct (IH Hnd H) as [->|[H1 H2]]; [left; reflexivity|right; split; [right; exact H1|exact H2]].
+Qed.
+Lemma nodupkey_replace l y x : uids l -> nodupkey l -> In y l -> srh x = srh y -> skey x = skey y -> nodupkey (replace_id l (sid y) x).
+Proof.
+  intros Hu Hk Hy Hr Hs a b Ha Hb Er Ek.
+  destruct (in_replace_id _ _ _ _ Hu Ha) as [->|[Ha1 Ha2]], (in_replace_id _ _ _ _ Hu Hb) as [->|[Hb1 Hb2]]; [reflexivity| | |apply Hk; assumption].
+  - exfalso. apply Hb2. f_equal. apply Hk; [exact Hb1|exact Hy|congruence|congruence].
+  - exfalso. apply Ha2. f_equal. apply Hk; [exact Ha1|exact Hy|congruence|congruence].
+Qed.
+Lemma nodupkey_ins_before l x : nodupkey l -> lookup l (shash x) (skey x) = None -> nodupkey (ins_before x l).
+Proof.
+  intros Hk Hn a b Ha Hb Er Ek. apply ins_before_in in Ha. apply ins_before_in in Hb.
+  assert (Hno : forall z, In z l -> srh z = srh x -> skey z = skey x -> False).
+  { intros z Hz E1 E2. pose proof (find_none _ _ Hn z Hz) as F. unfold same in F. unfold srh in E1 at 2. rewrite E1, E2, !N.eqb_refl in F. discriminate. }
+  destruct Ha as [->|Ha], Hb as [->|Hb]; [reflexivity| | |apply Hk; assumption]; exfalso; [apply (Hno b Hb)|apply (Hno a Ha)]; congruence.
+Qed.
+Theorem unique_ops_keep_keys_unique l o : uids l -> nodupkey l -> contract l o ->
+  (match o with SAdd _ => False | SReplace old x => forall y, In y l -> sid y = old -> skey x = skey y | _ => True end) ->
+  nodupkey (fst (sstep l o)).
+Proof.
+  intros Hu Hk Hc Hx. destruct o as [x|x|x|old x|i|h k|cur| | | |]; cbn [sstep contract] in *; try exact Hk; try contradiction.
+  - destruct (lookup l (shash x) (skey x)) eqn:E; cbn [fst]; [exact Hk|apply nodupkey_ins_before; assumption].
+  - destruct (lookup l (shash x) (skey x)) as [y|] eqn:E; cbn [fst]; [|apply nodupkey_ins_before; assumption].
+    destruct (find_same_rh _ _ _ _ E) as (Hy & Hrh & Hkey). apply nodupkey_replace; auto; try (unfold srh at 1; symmetry; exact Hrh); try (symmetry; exact Hkey).
+  - destruct Hc as [_ Hc2]. destruct (present l old) eqn:Ep; cbn [fst]; [|exact Hk]. unfold present in Ep. apply existsb_exists in Ep. destruct Ep as (y & Hy & Ey). apply N.eqb_eq in Ey. subst old.
+    apply nodupkey_replace; auto.
+  - destruct (present l i); cbn [fst]; [|exact Hk]. intros a b Ha Hb. apply filter_In in Ha. apply filter_In in Hb. apply Hk; [exact (proj1 Ha)|exact (proj1 Hb)].
+Qed.
+(* hence a duplicate walk (lookup, then next_duplicate) never returns a second node *)
+Theorem unique_keys_no_second_duplicate l cur : uids l -> nodupkey l -> In cur l -> next_dup l cur = None.
+Proof.
+  intros Hu Hk Hc. unfold next_dup. destruct (find (same (shash cur) (skey cur)) (after_id l (sid cur))) as [z|] eqn:E; [|reflexivity]. exfalso.
+  destruct (find_same_rh _ _ _ _ E) as (Hz & Hr & Hkey).
+  assert (Hsub : forall m i w, In w (after_id m i) -> In w m) by (induction m as [|q m IHm]; intros i w Hw; [destruct Hw|cbn [after_id] in Hw; destruct (sid q =? i); [right; exact Hw|right; apply (IHm i w Hw)]]).
+  assert (Hzc : z = cur) by (apply Hk; [apply (Hsub l (sid cur) z Hz)|exact Hc|exact Hr|exact Hkey]). subst z.
+  (* cur cannot occur after itself in a list with unique ids *)
+  clear -Hu Hz. unfold uids in Hu. induction l as [|q l IH]; [destruct Hz|]. cbn [map] in Hu. inversion Hu as [|? ? Hni Hnd]; subst. cbn [after_id] in Hz.
+  destruct (N.eqb_spec (sid q) (sid cur)) as [Eq|Eq]; [apply Hni; rewrite Eq; apply in_map; exact Hz|apply IH; assumption].
+Qed.
+Print Assumptions unique_ops_keep_keys_unique.
 Print Assumptions sstep_wf.
